@@ -118,31 +118,75 @@ def r2_factory(ctx) -> List[ClassInfo]:
   pf = ctx.index.need_class('vizier._src.service.policy_factory.DefaultPolicyFactory')
   enum = ctx.index.need_class('vizier._src.pyvizier.oss.study_config.Algorithm')
   members = [v.value for k, v in enum.assigns.items() if isinstance(v, ast.Constant)]
-  handled: Set[str] = set()
-  last_if = None
-  for m in pf.methods.values():
-    for n in ast.walk(m.node):
-      if isinstance(n, ast.If) and isinstance(n.test, ast.Compare) and dotted(n.test.left) == 'algorithm':
-        for c in ast.walk(n.test.comparators[0]):
-          if isinstance(c, ast.Constant) and isinstance(c.value, str):
-            handled.add(c.value)
-        last_if = n
-  missing = [a for a in members if a not in handled]
-  ctx.check(not missing, 'R2', 'an arm for every Algorithm member', pf.node, f'{len(members)} members handled',
+  # decision walk: for every Algorithm member (and for a name that is no member) the factory method is walked with
+  # the algorithm name bound; every path must end in a `return` for a member and in a `raise` for the unknown name
+  from ..pathcond import neval, NoValue
+  call = pf.methods.get('__call__')
+  if call is None:
+    raise AnalysisError('DefaultPolicyFactory.__call__ not found')
+  aparam = next((a.arg for a in call.node.args.args + call.node.args.kwonlyargs if 'algorithm' in a.arg), None)
+  if aparam is None:
+    raise AnalysisError('DefaultPolicyFactory.__call__: algorithm parameter not found')
+  consts: Dict[str, object] = {}
+  for st in pf.module.tree.body:
+    if isinstance(st, ast.Assign) and len(st.targets) == 1 and isinstance(st.targets[0], ast.Name):
+      try:
+        consts[st.targets[0].id] = neval(st.value, dict(consts))
+      except NoValue:
+        pass
+  for k, v in pf.assigns.items():
+    try:
+      val = neval(v, dict(consts))
+    except NoValue:
+      continue
+    consts[f'self.{k}'] = consts[f'{pf.name}.{k}'] = consts[f'cls.{k}'] = val
+
+  def outcomes(stmts, env, acc):
+    for i, st in enumerate(stmts):
+      if isinstance(st, ast.If):
+        try:
+          tv = neval(st.test, env)
+        except NoValue:
+          if not any(isinstance(x, ast.Name) and x.id == aparam for x in ast.walk(st.test)):
+            # a test that does not look at the algorithm: both sides are walked
+            outcomes(list(st.body) + stmts[i + 1:], env, acc)
+            outcomes(list(st.orelse) + stmts[i + 1:], env, acc)
+            return
+          raise AnalysisError(f'policy factory: test `{unparse(st.test, 60)}` on the algorithm name cannot be decided')
+        outcomes(list(st.body if tv else st.orelse) + stmts[i + 1:], env, acc)
+        return
+      if isinstance(st, ast.Return):
+        acc.append('return' if st.value is not None and not (isinstance(st.value, ast.Constant) and st.value.value is None) else 'none')
+        return
+      if isinstance(st, ast.Raise):
+        acc.append('raise')
+        return
+      if isinstance(st, ast.Assign) and len(st.targets) == 1 and isinstance(st.targets[0], ast.Name):
+        env = dict(env)
+        try:
+          env[st.targets[0].id] = neval(st.value, env)
+        except NoValue:
+          env.pop(st.targets[0].id, None)
+        continue
+      if isinstance(st, (ast.With, ast.Try)):
+        outcomes(list(st.body) + stmts[i + 1:], env, acc)
+        return
+      if isinstance(st, (ast.For, ast.While, ast.Match)):
+        raise AnalysisError(f'policy factory: {type(st).__name__} statement in the dispatch')
+    acc.append('none')
+
+  def decide(name):
+    acc: List[str] = []
+    env = dict(consts)
+    env[aparam] = name
+    outcomes(list(call.node.body), env, acc)
+    return acc
+  missing = [a for a in members if not all(o == 'return' for o in decide(a))]
+  ctx.check(not missing, 'R2', 'an arm for every Algorithm member', pf.node, f'{len(members)} members end in a returned policy on every path',
             f'Algorithm members without an arm in the policy factory: {missing} (accepted by StudyConfig, refused at suggest time)',
             construct=str(missing), func=pf.qualname)
-  ends = False
-  cur = last_if
-  # find the outermost chain's final else
-  for m in pf.methods.values():
-    for n in ast.walk(m.node):
-      if isinstance(n, ast.If) and isinstance(n.test, ast.Compare) and dotted(n.test.left) == 'algorithm':
-        c = n
-        while len(c.orelse) == 1 and isinstance(c.orelse[0], ast.If):
-          c = c.orelse[0]
-        if c.orelse and isinstance(c.orelse[-1], ast.Raise):
-          ends = True
-  ctx.check(ends, 'R2', 'unknown algorithm names are refused', pf.node, 'else: raise ValueError',
+  ends = all(o == 'raise' for o in decide('\x00no-such-algorithm'))
+  ctx.check(ends, 'R2', 'unknown algorithm names are refused', pf.node, 'an unknown name ends in a raise on every path',
             'an unknown algorithm name falls through without an error', construct='else-raise', func=pf.qualname)
   # hosted designer classes (both policy kinds)
   hosted: List[ClassInfo] = []
